@@ -13,7 +13,7 @@
  */
 /*@unit
 name: parse.noproto_lookup
-define: U_FIRST_PROTO_LOOKUP_FAILS, VERIF_OWN_STRCHR, VERIF_OWN_LOOKUPS
+define: U_FIRST_PROTO_LOOKUP_FAILS, VERIF_OWN_STRCHR, VERIF_STRCHR_TEXT_ONLY, VERIF_OWN_LOOKUPS
 src: url.c
 enforce: spif_url_parse
 replace: spif_str_new_from_buff, spif_str_new_from_ptr
@@ -24,7 +24,7 @@ timeout: 200
 */
 /*@unit
 name: parse.proto_found
-define: U_FIRST_PROTO_LOOKUP_SUCCEEDS, VERIF_OWN_STRCHR, VERIF_OWN_LOOKUPS
+define: U_FIRST_PROTO_LOOKUP_SUCCEEDS, VERIF_OWN_STRCHR, VERIF_STRCHR_TEXT_ONLY, VERIF_OWN_LOOKUPS
 src: url.c
 enforce: spif_url_parse
 replace: spif_str_new_from_buff, spif_str_new_from_ptr
@@ -80,9 +80,8 @@ struct servent *getservbyname(const char *name, const char *proto)
 
 static spif_bool_t spif_url_parse(spif_url_t self)
 __CPROVER_requires(__CPROVER_is_fresh(self, sizeof(spif_const_url_t)) && URL_TEXT_OK(self) && URL_COMPS_NULL(self))
-__CPROVER_requires(vg_txt == NSTR(self)->s && vg_txt_len == (size_t) NSTR(self)->len)
 __CPROVER_requires(vg_getproto_calls == 0 && vg_getserv_calls == 0)
-__CPROVER_assigns(URL_COMP_ASSIGNS(self), vg_buf, vg_buf_len, VG_LOOKUP_ASSIGNS)
+__CPROVER_assigns(URL_COMP_ASSIGNS(self), vg_txt, vg_txt_len, vg_buf, vg_buf_len, VG_LOOKUP_ASSIGNS)
 __CPROVER_ensures(__CPROVER_return_value == TRUE || __CPROVER_return_value == FALSE)
 /* every component: absent, or a NEW str object with its own terminated buffer */
 __CPROVER_ensures(NSTR_OPT(self->proto))
